@@ -33,9 +33,9 @@ type rxwCase struct {
 // arrives through several gateways, the later copies well inside the window of the first. The model's
 // `sendAt` thread takes the frame out of the output buffer when the window closes, so whatever the
 // copies put into the buffer during the window is folded into the one answer. Checked here against
-// the free-running code: (tie) the buffer is not read before the window has elapsed; (property)
-// exactly one answer with ACK for the copies, and a following unconfirmed uplink with nothing
-// pending is not answered.
+// the free-running code: (tie) the buffer is not read before the window has elapsed; (property,
+// strict-counter devices) exactly one answer with ACK for the copies, and a following unconfirmed
+// uplink with nothing pending is not answered.
 func runRxWindow(c *ctx) error {
 	quietLogs()
 	r := c.rng
@@ -74,7 +74,7 @@ func runRxWindow(c *ctx) error {
 		copy(app.Octets[:], r.Bytes(8))
 		copy(gw1.Octets[:], r.Bytes(8))
 		rig.st.CreateApplication(model.Application{AppEUI: app})
-		d := &simDev{app: app, relaxed: i%3 != 2, nonces: map[uint16]bool{}, joined: true}
+		d := &simDev{app: app, relaxed: i%3 == 2, nonces: map[uint16]bool{}, joined: true}
 		copy(d.eui.Octets[:], r.Bytes(8))
 		copy(d.nwk.Key[:], r.Bytes(16))
 		copy(d.apps.Key[:], r.Bytes(16))
@@ -194,7 +194,11 @@ func runRxWindow(c *ctx) error {
 		if i%4 == 0 {
 			c.res.Sample(kase)
 		}
-		if conclusive {
+		// The single-answer clause of C09 is stated for strict-counter devices (a later copy is then
+		// rejected by the counter step whatever the timing). For a relaxed device a later copy is an
+		// accepted confirmed uplink of its own; whether its acknowledgement rides on the first answer
+		// or on a later one is not prescribed, so only the timing tie above is checked for it.
+		if conclusive && !d.relaxed {
 			if len(first) != 1 || acks != 1 {
 				c.res.Add(hx.Finding{Kind: "propfail", Engine: "rxwindow", Signature: "copies-not-answered-once", Case: kase,
 					Impl: fmt.Sprintf("%d downlinks, %d with ACK", len(first), acks), Spec: "1 downlink with ACK",
